@@ -1,6 +1,46 @@
-From Coq Require Import List.
-From PG Require Import Graph.MGraph C16.Model.
-(* placeholder until the proofs land *)
-Theorem c16_placeholder : forall g s, poss_desc g s = poss_desc g s.
-Proof. reflexivity. Qed.
-Print Assumptions c16_placeholder.
+(* C16 — semi-directed path enumeration and possible ancestry are exact.  Statements: C16/Spec.v. All unbounded. *)
+From Coq Require Import List Permutation.
+From PG Require Import Graph.MGraph C16.Model C16.Paths C16.Spec C16.Proofs C16.Examples C16.Refuted.
+
+(* is_semi_directed_path decides "non-empty, duplicate-free, in G, every step an edge without an arrowhead towards the start" *)
+Theorem is_semi_spec : is_semi_spec_stmt.
+Proof. exact C16.Proofs.is_semi_spec. Qed.
+Print Assumptions is_semi_spec.
+
+(* on graphs without a lone circle mark a step is: adjacent and no arrowhead at the end nearer to the start *)
+Theorem semi_edge_marks : semi_edge_marks_stmt.
+Proof. exact C16.Proofs.semi_edge_marks. Qed.
+Print Assumptions semi_edge_marks.
+
+(* the enumeration contains each wanted path exactly once and nothing else, for every graph, source, target set, cutoff *)
+Theorem semi_enum_exact : semi_enum_exact_stmt.
+Proof. exact C16.Proofs.semi_enum_exact. Qed.
+Print Assumptions semi_enum_exact.
+
+(* multiset equality with the brute-force filter over all simple paths of the adjacency graph *)
+Theorem semi_enum_perm : semi_enum_perm_stmt.
+Proof. exact C16.Proofs.semi_enum_perm. Qed.
+Print Assumptions semi_enum_perm.
+
+Theorem semi_api_ok : semi_api_stmt.
+Proof. exact C16.Proofs.semi_api_ok. Qed.
+Print Assumptions semi_api_ok.
+
+(* cutoff None (= |V|-1) and any cutoff >= |V|-1 restrict nothing *)
+Theorem semi_cutoff_none : semi_cutoff_none_stmt.
+Proof. exact C16.Proofs.semi_cutoff_none. Qed.
+Print Assumptions semi_cutoff_none.
+
+Theorem poss_desc_exact : poss_desc_exact_stmt.
+Proof. exact C16.Proofs.poss_desc_exact. Qed.
+Print Assumptions poss_desc_exact.
+
+Theorem poss_anc_exact : poss_anc_exact_stmt.
+Proof. exact C16.Proofs.poss_anc_exact. Qed.
+Print Assumptions poss_anc_exact.
+
+(* the loop of /repo before the repair (transcribed, neighbours in ascending order) yields a path outside the specification *)
+Theorem semi_asis_refuted :
+  exists g s T k p, In p (semi_asis g s T k) /\ ~ semi_target_path g s T k p /\ ~ In p (semi_enum g s T k).
+Proof. exact C16.Refuted.semi_asis_refuted. Qed.
+Print Assumptions semi_asis_refuted.
